@@ -58,3 +58,97 @@ def completion(ctx):
     ctx.check("step/x-was-enqueued", member(w.enqueued, x))
     ctx.check("step:all-predecessors-completed=>x-completed", member(w.completed, x))
     return "ok"
+
+
+def _quiescent_world(ctx, k_none=False):
+    for a in G.graph_axioms():
+        ctx.assume(a)
+    st = G.Static(ctx)
+    st.k_none = k_none
+    for a in st.axioms():
+        ctx.assume(a)
+    w = G.World(ctx, "q")
+    for g in G.GI_always(w, st):
+        ctx.assume(g)
+    ctx.assume(G.G4(w, st))
+    y = z3.Const("y!cq", Node)
+    ctx.assume(z3.ForAll([y], z3.Implies(G.npred(y) == 0, member(w.enqueued, y))))                                            # H-INIT
+    ctx.assume(z3.ForAll([y], z3.Implies(member(w.enqueued, y), z3.Or(member(w.started, y), member(w.skipped, y)))))      # H-QUIET
+    ctx.assume(z3.ForAll([y], z3.Implies(member(w.started, y), z3.Or(member(w.completed, y), member(w.failed, y)))))
+    ctx.assume(z3.ForAll([y], z3.Implies(member(w.completed, y), member(w.finished, y))))
+    return st, w
+
+
+@unit("completion.GI-holds-initially", props=["C01", "C04", "C06", "C10"], functions=[],
+      assumptions=["lemma over the contracts: base case of the rely/guarantee proof - the state built by run_function_on_graph before the pool starts (prepare.prepare_nodes, "
+                   "queues.create_queue, the literal initialisations of stop / first_node_error / error_count) satisfies every invariant", "cardinality lemma schemas (cvc5)"],
+      min_obligations=6, kind="lemma")
+def gi_initially(ctx):
+    from .engine import G5
+
+    for a in G.graph_axioms():
+        ctx.assume(a)
+    for k_none in (False, True):
+        st = G.Static(ctx)
+        st.k_none = k_none
+        for a in st.axioms():
+            ctx.assume(a)
+        w = G.World(ctx, "init")
+        y, p = z3.Const("y!gi", Node), z3.Const("p!gi", Node)
+        ctx.assume(z3.ForAll([y], member(w.enqueued, y) == (G.npred(y) == 0)))          # the queue holds exactly the source nodes (prepare_nodes, create_queue)
+        for f in ("started", "completed", "failed", "skipped", "finished", "active", "held"):
+            ctx.assume(z3.ForAll([y], z3.Not(member(getattr(w, f), y))))
+        ctx.assume(z3.ForAll([y, p], z3.And(z3.Not(member(z3.Select(w.done_succ, p), y)), z3.Not(member(z3.Select(w.decs, y), p)))))
+        ctx.assume(z3.ForAll([y], z3.Implies(member(st.multi, y), z3.Select(w.count, y) == G.npred(y))))   # remaining_pred_count_mapping as prepared
+        ctx.assume(z3.And(z3.Not(w.stop), z3.Not(w.stopF), w.error_count == 0, z3.Not(w.first_set)))
+        # cardinality facts about empty sets: instances of the schemas
+        ctx.assume(G.L_card_empty())
+        ctx.assume(z3.ForAll([y], G.L_card_ext(z3.Select(w.decs, y), G.EMPTY)))
+        ctx.assume(G.L_card_ext(w.failed, G.EMPTY))
+        ctx.assume(G.L_card_ext(w.active, G.EMPTY))
+        ctx.assume(z3.ForAll([y], G.L_card_zero(G.pred(y))))
+        tag = "max_errors=None" if k_none else "max_errors=int"
+        for name, g in G.ALWAYS:
+            ctx.check(f"{name}-holds-initially[{tag}]", g(w, st))
+        ctx.check(f"G4-holds-initially[{tag}]", G.G4(w, st))
+        ctx.check(f"G5-holds-initially[{tag}]", z3.And(G5(w, st)))
+    return "ok"
+
+
+@unit("completion.no-stop=>every-call-whose-dependencies-succeeded-is-executed", props=["C10", "C06"], functions=[],
+      assumptions=["lemma over the contracts (no induction): at quiescence, if stop was never set (max_errors=None, or the error budget was not exceeded) nothing was skipped"],
+      min_obligations=2, kind="lemma", prove_timeout_ms=60000)
+def no_stop(ctx):
+    st, w = _quiescent_world(ctx, k_none=True)
+    y, p = z3.Const("y!ns", Node), z3.Const("p!ns", Node)
+    ctx.assume(z3.ForAll([y], z3.Not(member(w.skipped, y))))            # skipped only grows when stop was read True
+    x = ctx.fresh(Node, "x")
+    dx = z3.Select(w.decs, x)
+    ctx.assume(z3.ForAll([p], z3.Implies(member(G.pred(x), p), member(w.completed, p))))
+    ctx.assume(G.L_card_nonneg(G.pred(x)))
+    ctx.assume(G.L_card_ext(dx, G.pred(x)))
+    ctx.assume(G.L_card_ext(G.pred(x), G.EMPTY))
+    ctx.assume(G.L_card_empty())
+    ctx.check("every-direct-dependency-completed=>x-was-enqueued", member(w.enqueued, x))
+    ctx.check("every-direct-dependency-completed-and-stop-never-set=>x-was-executed(completed-or-failed)", z3.Or(member(w.completed, x), member(w.failed, x)))
+    return "ok"
+
+
+@unit("completion.one-worker:exact-number-of-failures", props=["C10"], functions=[],
+      assumptions=["lemma over the contracts: G5 (failure-lock invariant, proved in engine.process_node) at quiescence, where nothing is in flight (active is empty)"],
+      min_obligations=2, kind="lemma")
+def one_worker(ctx):
+    from .engine import G5
+
+    st, w = _quiescent_world(ctx, k_none=False)
+    for f in G5(w, st):
+        ctx.assume(f)
+    y = z3.Const("y!ow", Node)
+    ctx.assume(z3.ForAll([y], z3.Not(member(w.active, y))))
+    ctx.assume(G.L_card_ext(w.active, G.EMPTY))
+    ctx.assume(G.L_card_empty())
+    ctx.check("any-worker-count:at-most-max_errors+max_workers-calls-fail", G.card(w.failed) <= st.k + st.W)
+    ctx.check("stop-set=>at-least-max_errors+1-calls-failed", z3.Implies(w.stopF, G.card(w.failed) >= st.k + 1))
+    ctx.check("one-worker-and-stop-set=>exactly-max_errors+1-calls-failed", z3.Implies(z3.And(st.W == 1, w.stopF), G.card(w.failed) == st.k + 1))
+    ctx.check("stop-not-set=>at-most-max_errors-calls-failed(and-by-the-previous-lemma-every-enabled-call-ran)", z3.Implies(z3.Not(w.stopF), G.card(w.failed) <= st.k))
+    return "ok"
